@@ -1,5 +1,5 @@
 (** Entry point of the extracted runner: one checker per domain. *)
-From Verif Require Import Json Breaker CorrBreaker CorrMatch CorrLoc CorrPindex CorrJs CorrConc CorrCron CorrCrolt CorrCronSys CorrService CorrHttp.
+From Verif Require Import Json Breaker CorrBreaker CorrMatch CorrLoc CorrPindex CorrJs CorrConc CorrCron CorrCrolt CorrCronSys CorrService CorrHttp CorrSysSteer.
 
 Definition check_case (domain : string) (c : json) : json :=
   if String.eqb domain "breaker" then check_breaker c
@@ -8,6 +8,7 @@ Definition check_case (domain : string) (c : json) : json :=
   else if String.eqb domain "pindex" then check_pindex c
   else if String.eqb domain "js" then check_js c
   else if String.eqb domain "conc-http" then check_http c
+  else if String.eqb domain "sys-steer" then check_syssteer c
   else if has_prefix "conc" domain then check_conc c
   else if String.eqb domain "cron-sys" then check_cronsys c
   else if String.eqb domain "cron" then check_cron c
